@@ -161,7 +161,8 @@ TDirectPartial ==
 TDirectRun == TDirectEnd \/ TDirectPartial
 
 \* main-thread private steps that are not logged
-Silent == /\ (RunOther \/ RunTailEarlyError \/ TDirectRun \/ AfterRW \/ TiGet \/ (EndSignal /\ m.loopI >= m.nInit))
+Silent == /\ (RunOther \/ RunTailEarlyError \/ TDirectRun \/ AfterRW \/ TiGet \/ TiGetFailPrealloc \/ TiCreateFail \/ TiSetupFailIn
+              \/ TiSetupFailDecoder \/ DirectInitFail \/ NextStreamFail \/ BlkHdrFail \/ (EndSignal /\ m.loopI >= m.nInit))
           /\ UNCHANGED l
 
 TNext == Logged \/ Silent
